@@ -1040,6 +1040,11 @@ func (x *Exec) binop(i *ssa.BinOp) Val {
 		if ok2 && (i.Op == token.EQL || i.Op == token.NEQ) {
 			return x.stringEq(sa, sb, i.Op == token.NEQ)
 		}
+		if i.Op == token.ADD {
+			// concatenation: a fresh string whose contents are not modelled (length unconstrained:
+			// the only uses are messages)
+			return x.freshSlice("concat", MT{8, false}, true)
+		}
 		panic(unsupported("string operator " + i.Op.String()))
 	}
 	if oa, ok := a.(Opaque); ok {
